@@ -24,7 +24,8 @@ META = {
     "require": {"quick": ["pairs_partition", "consequence:indx_words_checked",
                           "consequence:collapsed_output_checked", "consequence:to_array_after_in_place_code_change",
                           "consequence:collapsed_over_255..257_columns", "consequence:dense_output_dtype_checked:columns>256",
-                          "consequence:mapped_dense_output_dtype_checked:common_not_in_mapping"],
+                          "consequence:mapped_dense_output_dtype_checked:common_not_in_mapping",
+                          "consequence:dense_output_dtype_of_an_index_without_entries"],
                 "thorough": ["pairs_partition", "pairs_random", "consequence:indx_words_checked",
                              "consequence:collapsed_output_checked"]},
     "exhaustive": {"quick": "threshold partition P x P' of the (max,min) plane (all powers of two +-1, k=0..64)",
@@ -263,6 +264,12 @@ def dense_output_dtype(ctx, rng):
     common = codes[int(rng.integers(0, len(codes)))]
     entries = {}
     cols = sorted({0, ncols // 2, ncols - 1})
+    if rng.random() < 0.25:
+        # nothing listed at all: a constant column / a filtered-away index / zero rows - only the common value is stored
+        cols = []
+        common = int(rng.choice([0, 1, 255, 256, 65535, 65536, -1, -129, 2 ** 32, 2 ** 63 - 1]))
+        nrows = int(rng.choice([0, 1, 5]))
+        ctx.count("consequence:dense_output_dtype_of_an_index_without_entries")
     for j, col in enumerate(cols):
         code = [c for c in codes if c != common][j % (len(codes) - 1)]
         entries[(code, col)] = sorted(set(int(r) for r in rng.integers(0, nrows, size=2)))
@@ -298,6 +305,8 @@ def dense_output_dtype_case(ctx, case):
                       "values is %s" % (nrows, ncols, sorted(set(stored)), common, out.dtype, exp), case)
         return
     mp = {int(k): int(v) for k, v in case["mapping"]}
+    if not mp:
+        return
     common2 = int(case["common2"])
     if common2 in mp and common2 != common:
         return
